@@ -92,6 +92,9 @@ def axiom_audit(pid):
 
 # ---------------------------------------------------------------- running ops
 
+IMPL_CMD = None      # per-property override of the implementation side
+
+
 def _run_chunk(args):
     idx, ops, rundir, timeout = args
     opsf = os.path.join(rundir, f"ops.{idx}")
@@ -99,7 +102,7 @@ def _run_chunk(args):
         fh.write("\n".join(ops) + "\n")
     res = []
     for exe, name in ((HARNESS, "impl"), (DRIVER, "model")):
-        cmd = [exe, "run"] if name == "impl" else [exe]
+        cmd = (IMPL_CMD or [exe, "run"]) if name == "impl" else [exe]
         try:
             with open(opsf) as fin:
                 p = subprocess.run(cmd, stdin=fin, stdout=subprocess.PIPE, stderr=subprocess.PIPE,
@@ -195,6 +198,59 @@ def known_match(known, op, impl, model_line):
 
 # ---------------------------------------------------------------- main
 
+def regen_facts():
+    """regenerate lean/GfsGen/Facts.lean from /repo (old file removed first)"""
+    gdir = os.path.join(VERIF, "tools", "gofacts")
+    rc, out = sh(["go", "build", "-o", os.path.join(BUILD, "gofacts"), "."], cwd=gdir, env=GOENV)
+    if rc != 0:
+        return [("build", "go build gofacts", out[-800:])]
+    facts = os.path.join(LEAN, "GfsGen", "Facts.lean")
+    new = facts + ".new"
+    rc, out = sh([os.path.join(BUILD, "gofacts"), REPO, new])
+    if rc != 0:
+        if os.path.exists(facts):
+            os.unlink(facts)
+        return [("tie", "gofacts cannot read /repo sources", out[-800:])]
+    # keep the mtime when nothing changed so that lake does not rebuild
+    if not os.path.exists(facts) or open(facts).read() != open(new).read():
+        os.replace(new, facts)
+    else:
+        os.unlink(new)
+    return []
+
+
+def build_racer(a, rundir):
+    rdir = os.path.join(VERIF, "racer")
+    shutil.copyfile(os.path.join(REPO, "go.sum"), os.path.join(rdir, "go.sum"))
+    rc, out = sh(["go", "build", "-race", "-tags", "verif", "-o", os.path.join(BUILD, "racer"), "."], cwd=rdir, env=GOENV)
+    if rc != 0:
+        log(out)
+        return [("build", "go build -race racer", out[-1500:])]
+    return []
+
+
+def build_handles(a, rundir):
+    """C20: refresh the copies of storage.go / uuid.go from /repo and build the driver with -race"""
+    hdir = os.path.join(BUILD, "handles")
+    os.makedirs(hdir, exist_ok=True)
+    for f in os.listdir(hdir):
+        os.unlink(os.path.join(hdir, f))
+    shutil.copyfile(os.path.join(VERIF, "handles", "driver.go.txt"), os.path.join(hdir, "driver.go"))
+    shutil.copyfile(os.path.join(VERIF, "handles", "go.mod.txt"), os.path.join(hdir, "go.mod"))
+    shutil.copyfile(os.path.join(REPO, "go.sum"), os.path.join(hdir, "go.sum"))
+    for f in ("storage.go", "uuid.go"):
+        shutil.copyfile(os.path.join(REPO, "exp", "cpp", "export", f), os.path.join(hdir, f))
+    rc, out = sh(["go", "build", "-race", "-tags", "verif", "-o", "handlesdrv", "."], cwd=hdir, env=GOENV)
+    if rc != 0:
+        log(out)
+        return [("build", "go build -race handles driver (storage.go, uuid.go from /repo)", out[-1500:])]
+    return []
+
+
+props.HOOKS["build_handles"] = build_handles
+props.HOOKS["build_racer"] = build_racer
+
+
 def gen_ops(pid, seed, n, thorough):
     cmd = [HARNESS, "gen", pid, "-seed", str(seed), "-n", str(n)]
     if thorough:
@@ -237,12 +293,17 @@ def main(argv):
 
     broken = []       # (kind, name, detail): proof obligations / ties that no longer check
     # 1. builds ---------------------------------------------------------------
+    broken.extend(regen_facts())
     ok, out = build_harness()
     if not ok:
         log(out)
         log("harness does not build against /repo")
         broken.append(("build", "go build harness", out[-1500:]))
+    global IMPL_CMD
+    IMPL_CMD = cfg.get("impl_cmd")
     for hook in cfg.get("pre", []):
+        if isinstance(hook, str):
+            hook = props.HOOKS[hook]
         r = hook(a, rundir)
         if r:
             broken.extend(r)
